@@ -471,6 +471,21 @@ class Session:
             self.log.append({"i": i, "c": c, "op": op, "res": res})
 
 
+_process_scratch = {}
+
+
+def process_scratch(base=None):
+    """One scratch directory per interpreter, created atomically with a unique name (a name built
+    from the pid alone can collide with a dead interpreter of another check run whose coordinator
+    has not swept yet - pids are recycled quickly on this machine)."""
+    import tempfile
+
+    base = base or fsseam.scratch_base()
+    if base not in _process_scratch:
+        _process_scratch[base] = tempfile.mkdtemp(prefix="PVS", dir=base)
+    return _process_scratch[base]
+
+
 def hash_canary():
     return list({"alpha", "beta", "gamma", "delta", "epsilon", "zeta", "eta", "theta"})
 
@@ -478,7 +493,7 @@ def hash_canary():
 def execute(plan, scratch_base=None, run_tag="0"):
     """Run one plan. Returns the result dict (event log, isolated outcomes, snapshots)."""
     base = scratch_base or fsseam.scratch_base()
-    scratch = os.path.join(base, f"PVS{os.getpid()}", str(run_tag))
+    scratch = os.path.join(process_scratch(base), str(run_tag))
     saved_filters = list(warnings.filters)
     fsseam.reset_counters()
     ids.reset()
